@@ -16,7 +16,14 @@ RULE = ('PARSE: images built by an independent HPM.1 encoder (harness twin of Sp
         'revisions 0..99 and 0xFF, descriptions plain / NUL-padded / Latin-1 / with backslashes (valid, malformed, '
         'doubled, trailing escape), written to a scratch file and parsed by UpgradeImage; every attribute is compared '
         'with the view the specification demands and with the Lean model; plus a malformed stream (truncations, '
-        'unknown record type, non-BCD minor) compared with the model only.  UPLOAD: binaries of 0..6000 bytes '
+        'unknown record type, non-BCD minor) compared with the model only.  HISTORIES: 2-5 images written and parsed one '
+        'after the other in one process - through the SAME path (another image of exactly the same size: other header / '
+        'other firmware and versions / same records in another order, with the modification time pinned by os.utime, '
+        'natural, or the file replaced by rename; other sizes; back to the first image), through other paths, by '
+        'UpgradeImage, Hpm.open_upgrade_image (class and Ipmi object) and Hpm.get_upgrade_version_from_file; every parse is '
+        'judged against the image in the file at that moment (and compared with the Lean parser model, a function of the '
+        'bytes), kept results are re-read at the end; each history runs in a pristine child process and a finding is '
+        're-tried as a single parse (signature C18:history:* when only the history shows it).  UPLOAD: binaries of 0..6000 bytes '
         '(directed around 22-byte and 256-block boundaries) sent by Hpm.upload_binary through a fake interface to a '
         'reference device that parses the request bytes, under plans answering any subset of blocks with 80h '
         '(0..n further in-progress polls, also more than the time-out allows), one block with another code, or '
@@ -35,10 +42,13 @@ ASSUMPTIONS = [
     'HPM.1 R1.0 defines image record types 0..2 only',
     'device limit for one firmware block is 22 bytes (DESIGN §C18); the device answers status requests with '
     'completion code 00h; interface time-outs / IOError during status polling are not generated',
+    'histories: Hpm.install_component_from_file (parse + whole upgrade procedure) is not driven; it opens the file with the '
+    'same UpgradeImage(filename) call the history stream drives',
     'the firmware description string is observed but, not being named by the property, only its ability to make '
     'the parse fail is judged',
 ]
-TRUSTED = ['harness/translate/hpm.py', 'harness/sim/dev18.py', 'harness/props/c18.py (independent encoder, oracle)']
+TRUSTED = ['harness/translate/hpm.py', 'harness/sim/dev18.py', 'harness/sim/pristine.py (fork server: histories run in a '
+           'process that has parsed nothing yet)', 'harness/props/c18.py (independent encoder, oracle)']
 
 DEVICE_BLOCK_LIMIT = 22
 SIGNATURE = b'PICMGFWU'
@@ -713,6 +723,9 @@ def history_stream(ctx, drv, variant, rng, n_random):
     apis = available_apis()
     nsteps = 0
     for label, steps in gen_histories(rng, apis, n_random):
+        if ctx.time_left() < 30:
+            ctx.notes.append('history stream cut short by the time budget')
+            break
         case = {'kind': 'history', 'label': label, 'steps': steps}
         try:
             res = p.call('history', steps) if p is not None else exec_history(steps)
@@ -765,6 +778,11 @@ def history_stream(ctx, drv, variant, rng, n_random):
             continue
         case, res = shrink_history(p, case, res, sig)
         i, sig, what, exp, obs = [f for f in history_findings(case, res) if f[1] == sig][0]
+        stale = [j for j in range(i) if res['steps'][i]['view'] == expected_step(dict(case['steps'][j], api=case['steps'][i]['api']))]
+        if stale:
+            sig = 'C18:parse:earlier-image-returned'
+            what = 'the parse returns the image that was in %s at step %d, not the one in the file (%s)' % (
+                'the file' if case['steps'][stale[-1]]['slot'] == case['steps'][i]['slot'] else 'another file', stale[-1], what)
         ctx.violate(_history_sig(sig),
                     'step %d of a history of %d parses in one process: %s (the same file parses correctly in a process '
                     'that has parsed nothing before)' % (i, len(case['steps']), what), case, expected=exp, observed=obs)
